@@ -234,6 +234,15 @@ func (h *Host) ShrinkSL() { h.rec.add("ShrinkSL"); if len(h.SL) > 1 { h.SL = h.S
 func (h *Host) BumpM() int64 { h.rec.add("BumpM"); h.M["k"] = 10; return 3 }
 func (h *Host) BumpI() int64 { h.rec.add("BumpI"); h.I64 = 100; return 1 }
 
+// HoldM is Hold as a METHOD: a method-call child of a conc block that the adversary keeps inside the call
+func (h *Host) HoldM(n string) {
+	h.rec.add("HoldM", n)
+	if h.rec.gate != nil {
+		h.rec.gate.Hold(n)
+	}
+	h.rec.add("Unheld", n)
+}
+
 func (h Host) Echo(x int64) int64 { h.rec.add("Echo", x); return x }
 func (s Sub) EchoN(k int32) int32 { s.rec.add("EchoN", k); return k }
 
